@@ -33,3 +33,11 @@ func VerifResetQids() {
 	qids.Range(func(k, v interface{}) bool { qids.Delete(k); return true })
 	nextQid.Store(uint64(1) << 63)
 }
+
+// VerifSetInodeLikelyBits changes how many inode bits count as "likely" (0:
+// every real inode goes through the fallback table) and returns the undo.
+func VerifSetInodeLikelyBits(n int) (restore func()) {
+	old := inodeLikelyBits
+	inodeLikelyBits = n
+	return func() { inodeLikelyBits = old }
+}
